@@ -203,6 +203,47 @@ C12Step ==
           /\ Paths(Res) \subseteq Paths(e)
 C12Prop == [][C12Step]_vars
 
+(* ---- C15 ---------------------------------------------------------------*)
+(* the operational walks (level counters, parent threading) against the declarative positions *)
+RECURSIVE VisitSet(_), VisitCount(_)
+VisitSet(w) ==
+  CASE w[1] = "visit"  -> {<<w[2], w[3], w[4], w[5]>>} \cup UNION {VisitSet(w[6][i]) : i \in 1..Len(w[6])}
+    [] w[1] = "seq"    -> UNION {VisitSet(w[2][i]) : i \in 1..Len(w[2])}
+    [] w[1] = "sorted" -> UNION {VisitSet(x[2]) : x \in w[2]}
+RECURSIVE SumCounts(_)
+SumCounts(S) == IF S = {} THEN 0 ELSE LET x == CHOOSE x \in S : TRUE IN VisitCount(x[2]) + SumCounts(S \ {x})
+RECURSIVE SeqCounts(_)
+SeqCounts(q) == IF q = << >> THEN 0 ELSE VisitCount(Head(q)) + SeqCounts(Tail(q))
+VisitCount(w) ==
+  CASE w[1] = "visit"  -> 1 + SeqCounts(w[6])
+    [] w[1] = "seq"    -> SeqCounts(w[2])
+    [] w[1] = "sorted" -> SumCounts(w[2])
+EdgeOfStep(st) == CASE st[1] = "s" -> "Subject" [] st[1] = "a" -> "Assertion" [] st[1] = "w" -> "Wrapped"
+                    [] st[1] = "p" -> "Predicate" [] st[1] = "o" -> "Object"
+ParentPath(q) == SubSeq(q, 1, Len(q) - 1)
+StructureVisits(e) ==
+  {<<Dg(At(e, q)), Len(q), IF q = << >> THEN "None" ELSE EdgeOfStep(q[Len(q)]),
+     IF q = << >> THEN NoParent ELSE Dg(At(e, ParentPath(q)))>> : q \in Paths(e)}
+(* tree mode: node elements are not visited; a node's subject stays at the node's level *)
+RECURSIVE TreeLevel(_, _)
+TreeLevel(e, q) ==     \* level at which the element at path q is visited in tree mode
+  IF q = << >> THEN 0
+  ELSE LET pq == ParentPath(q)  par == At(e, pq)  st == q[Len(q)] IN
+       IF IsNode(par)
+       THEN IF st[1] = "s" THEN TreeLevel(e, pq) ELSE TreeLevel(e, pq) + 1
+       ELSE TreeLevel(e, pq) + 1
+C15Laws ==
+  \A r \in Full :
+    LET e == reg[r]  ws == WalkStructure(e, 0, "None", NoParent)  wt == WalkTree(e, 0, NoParent) IN
+    /\ VisitSet(ws) = StructureVisits(e)                            \* each element, its depth, edge kind, parent
+    /\ VisitCount(ws) = Cardinality(Paths(e))                       \* exactly once
+    /\ ElementsCount(e) = Cardinality(Paths(e))
+    /\ VisitCount(wt) = Cardinality({q \in Paths(e) : ~IsNode(At(e, q))})
+    /\ {<<v[1], v[2]>> : v \in VisitSet(wt)} = {<<Dg(At(e, q)), TreeLevel(e, q)>> : q \in {q2 \in Paths(e) : ~IsNode(At(e, q2))}}
+    /\ \A k \in 0..(Depth(e) + 2) :
+          DigestsUpTo(e, k) = UNION {{Dg(At(e, q)), Dg(Subject(At(e, q)))} : q \in {q2 \in Paths(e) : Len(q2) < k}}
+    /\ DigestsUpTo(e, Depth(e) + 1) = AllDigests(e)
+
 (* ---- C17 ---------------------------------------------------------------*)
 SaltOps == {"add_salt", "add_salt_with_len", "add_salt_in_range"}
 C17Step ==
